@@ -3,6 +3,7 @@ From Coq Require Import List NArith ZArith.
 Import ListNotations.
 Require Import ITree.Model.Common ITree.Model.RBTree ITree.Model.MapModel.
 Require Import ITree.Spec.Spec ITree.Spec.MapSpec ITree.Proofs.MapProofs ITree.Proofs.MapTheorems.
+Require ITree.Model.Pool ITree.Model.ArenaModel ITree.Model.ArenaQuery ITree.Proofs.ArenaStable.
 
 (* From any state satisfying the representation invariant, after ANY sequence of insertions and
    lookups (no deletion, no clear, no write): every handle x that designated entry e still designates
@@ -20,3 +21,28 @@ Theorem C17_insert : forall (s: mstate) (k v: Z), MInv s -> (forall e, In e (ent
     ~ In i (slots ment (root s)) /\
     Permutation.Permutation (ents ment (root s')) ((k, v) :: ents ment (root s)).
 Proof. exact m_insert_spec. Qed.
+
+(* The same on the parent-pointer ARENA (Model/ArenaModel.v, the statement-by-statement transcription
+   that the model runner executes against the implementation's raw buffer): insert_entity with all its
+   rotations and recolourings writes link and colour fields only - the entity stored in every slot
+   other than the new one is untouched, for ANY arena (no invariant needed) *)
+Theorem C17_arena_insert : forall (ent: Type) (key_of: ent -> Z) (fuel: nat) (a: ArenaModel.astate ent) (ni: N) (e: ent)
+  (a': ArenaModel.astate ent),
+  ArenaModel.arena_insert key_of fuel a ni e = Ret a' ->
+  (forall i, i <> ni -> ArenaModel.aent (ArenaModel.nodes a' i) = ArenaModel.aent (ArenaModel.nodes a i)) /\
+  ArenaModel.aent (ArenaModel.nodes a' ni) = e.
+Proof. exact ArenaStable.arena_insert_keeps_entities. Qed.
+
+(* ... and along every history of the whole map / set interface on the arena that contains no
+   deletion, no clear and no write through the handle i itself: if slot i is in use at the start
+   (not on the free list, below the buffer length), then at the end it still holds the same entity
+   and is still in use - the pool never hands it out again *)
+Theorem C17_arena_run : forall (fuel: nat) (i: N) (h: list mop) (a: ArenaModel.astate ment) (p: Pool.pool)
+  (a': ArenaModel.astate ment) (p': Pool.pool) (outs: list mout),
+  Forall (ArenaStable.quiet_op i) h ->
+  ~ In i (Pool.unused p) /\ (i < Pool.blen p)%N ->
+  ArenaQuery.arena_m_run fuel (a, p) h = Ret ((a', p'), outs) ->
+  ArenaModel.aent (ArenaModel.nodes a' i) = ArenaModel.aent (ArenaModel.nodes a i) /\
+  (~ In i (Pool.unused p') /\ (i < Pool.blen p')%N).
+Proof. exact ArenaStable.arena_run_keeps_handle. Qed.
+
